@@ -4,6 +4,6 @@
 cd "$(dirname "$0")/.."
 seeds="${1:-1 2 3}"; jobs="${2:-4}"
 mkdir -p _build/logs
-ids=$(python3 -c "import json;print(' '.join(c['property_id'] for c in json.load(open('MANIFEST.json'))['checks']))")
+ids="${IDS:-$(python3 -c "import json;print(' '.join(c['property_id'] for c in json.load(open('MANIFEST.json'))['checks']))")}"
 unset VERIF_REPO
 for s in $seeds; do for i in $ids; do echo "$s $i"; done; done | xargs -P "$jobs" -L1 sh -c 'VERIF_SEED=$0 harness/check $1 --tier quick > _build/logs/$1.seed$0.log 2>&1; rc=$?; v=$(grep -c "^VIOLATION" _build/logs/$1.seed$0.log); if [ $rc -ne 0 ] || [ $v -ne 0 ]; then echo "ALARM seed=$0 $1 exit=$rc violations=$v"; else echo "clean seed=$0 $1"; fi'
